@@ -1,6 +1,6 @@
 (* C09  WATCH is sound optimistic locking.  Statements only. *)
 From Nodis Require Import Base.Bytes Model.Num Model.FMap Model.Db Model.Api Model.Handlers Model.Conn
-     Proofs.FMapProofs Proofs.DbProofs Proofs.MultiProofs.
+     Proofs.FMapProofs Proofs.DbProofs Proofs.MultiProofs Proofs.SignalProofs.
 From Coq Require Import ZArith List Bool.
 Local Open Scope Z_scope.
 
@@ -84,6 +84,28 @@ Proof.
   unfold alloc_key. intro H. inversion H; subst. unfold notify, signal, emit, with_events. cbn [events]. eexists. reflexivity.
 Qed.
 Print Assumptions C09_renamenx_signals_both.
+(* the principal writer of every type, and the two deadline commands: a successful write ends with
+   signalModifiedKey(key) and the notification - the two newest events of the log.  (The commands
+   that do not signal are the listed findings: DEL/UNLINK/HCLEAR/ZCLEAR/EXPIRE 0/FLUSH*.) *)
+Theorem C09_writers_signal : forall k now d,
+  (forall left vs n d', api_push left k vs now d = Ok n d' -> signals k d') /\
+  (forall f v n d', api_hset k f v now d = Ok n d' -> signals k d') /\
+  (forall ms n d', api_sadd k ms now d = Ok n d' -> signals k d') /\
+  (forall mode m s n d', api_zadd_gen mode k m s now d = Ok n d' -> signals k d') /\
+  (forall delta decr n d', api_incr_gen k delta decr false now d = Ok (Some n) d' -> signals k d') /\
+  (forall d', api_persist k now d = (1, d') -> signals k d') /\
+  (forall m e, signals k (exp_commit k m e d)).
+Proof.
+  intros k now d. repeat split; intros.
+  - eapply push_signals; eassumption.
+  - eapply hset_signals; eassumption.
+  - eapply sadd_signals; eassumption.
+  - eapply zadd_signals; eassumption.
+  - eapply incr_signals; eassumption.
+  - eapply persist_signals; eassumption.
+  - apply expire_signals.
+Qed.
+Print Assumptions C09_writers_signal.
 Definition is_signal (e : event) : bool := match e with EvSignal _ => true | _ => false end.
 Theorem C09_del_never_signals : forall ks now d,
   filter is_signal (events (snd (api_del ks now d))) = filter is_signal (events d).
